@@ -140,6 +140,7 @@ def explore(world, rel, q, upto=None, params=None):
         a = fn.args
         for x in a.posonlyargs + a.args + a.kwonlyargs:
             fr.locals[x.arg] = (params or {}).get(x.arg, ("s", x.arg))
+            sim.entry_params.add(x.arg)
         ret = None
         body = fn.body if upto is None else fn.body[: upto + 1]
         try:
